@@ -89,3 +89,56 @@ def flat(out, prefix=''):
         else:
             d[prefix + k] = v
     return d
+
+
+# ---------------------------------------------------------------------------------------------------------------------
+# assembled fields at a symbolic user point through the public solver (no internal grid: linspace gives an empty grid and
+# the wave positions are not appended, so the solver's sort is trivial; region assembly and interpolation run as coded)
+
+def _empty_linspace(*a, **k):
+    return np.empty(0, dtype=object)
+
+
+def _append_user_only(x, v):
+    v = np.atleast_1d(np.asarray(v, dtype=object))
+    x = np.asarray(x, dtype=object)
+    if v.size >= 3:          # Xregs (3-5 wave positions): only refine the internal grid; not needed here
+        return x
+    return np.concatenate([x, v])
+
+
+def shim_extra_point():
+    d = {'min': stubs.sym_min, 'max': stubs.sym_max, 'print': H.quiet_print, 'linspace': _empty_linspace, 'append': _append_user_only}
+    from symx.shim import Recorder
+    d['ExactSolution'] = Recorder
+    return d
+
+
+def run_point(mk, gl, gr, xname='x'):
+    """{field: value at the user point} + wave table, through IGEOS_Solver.__call__"""
+    ep = H.mod(EP)
+    st = {k: mk(k) for k in STATE}
+    kw = dict(st)
+    kw.update(gl=K(mk, gl), gr=K(mk, gr), xd0=mk('xd0'), xmin=mk('xd0') - 1, xmax=mk('xd0') + 1, num_x_pts=2)
+    sol = ep.IGEOS_Solver(**kw)
+    res = sol(H.arr([mk(xname)]), mk('t'))
+    f = H.first(H.fields(res))
+    out = dict(f)
+    out['Vregs'] = list(sol.Vregs)
+    out['pattern'] = PATTERNS[sol.soln_type]
+    out.update(st)
+    out.update(gl=K(mk, gl), gr=K(mk, gr), xd0=mk('xd0'), t=mk('t'))
+    return out
+
+
+def bisect_only(pattern):
+    """bisect stub that abandons the path at once when the driver is solving another wave pattern than `pattern'
+    (each pattern gets its own obligation, run in parallel)"""
+    from symx.engine import PathAbort
+
+    def f(fun, a, b, *args, **kw):
+        names = getattr(getattr(fun, '__code__', None), 'co_names', ())
+        if (pattern + '_call') not in names:
+            raise PathAbort()
+        return stubs.bisect_stub(fun, a, b, *args, **kw)
+    return f
